@@ -14,6 +14,7 @@ mod st;
 mod c01;
 mod c02;
 mod c03;
+mod c04;
 mod c05;
 mod c06;
 mod cifdoc;
@@ -124,6 +125,7 @@ fn gen(prop: &str, tier: &str, seed: u64) -> Vec<String> {
         "C01" => c01::gen(tier, &mut r),
         "C02" => c02::gen(tier, &mut r),
         "C03" => c03::gen(tier, &mut r),
+        "C04" => c04::gen(tier, &mut r),
         "C05" => c05::gen(tier, &mut r),
         "C06" => c06::gen(tier, &mut r),
         "C07" => c07::gen(tier, &mut r),
@@ -146,6 +148,7 @@ fn exec(prop: &str, case: &str) -> Exec {
         "C01" => c01::exec(case),
         "C02" => c02::exec(case),
         "C03" => c03::exec(case),
+        "C04" => c04::exec(case),
         "C05" => c05::exec(case),
         "C06" => c06::exec(case),
         "C07" => c07::exec(case),
